@@ -462,4 +462,19 @@ def main_wrapper(fn, pid):
     except Machinery as e:
         print(f"MACHINERY-FAILURE {pid}: {e}", file=sys.stderr)
         sys.exit(2)
+    except Exception as e:   # noqa: BLE001
+        # an exception nobody expected.  If it was raised INSIDE the library (innermost frame under the repository's sources)
+        # the library failed in a place where the harness relies on it not to: that is a verdict on the tree.  Otherwise the
+        # harness itself is broken: exit 2, never exit 1.
+        import traceback
+        tb = traceback.extract_tb(e.__traceback__)
+        inner = tb[-1].filename if tb else ""
+        traceback.print_exc()
+        if str(REPO / "src") in inner:
+            where = f"{os.path.relpath(inner, REPO)}:{tb[-1].lineno}"
+            harness = next((f"{os.path.basename(f.filename)}:{f.lineno}" for f in reversed(tb) if "/vf/" in f.filename), "")
+            ctx.fail(f"P:{pid}:library-raised-unexpectedly", {"exception": type(e).__name__, "raised_at": where, "called_from": harness}, str(e)[:300], None)
+            sys.exit(ctx.finish(rule="the check was cut short by an exception raised inside the library"))
+        print(f"MACHINERY-FAILURE {pid}: {type(e).__name__}: {e}", file=sys.stderr)
+        sys.exit(2)
     sys.exit(rc)
